@@ -149,8 +149,10 @@ def perturbed(base_steps: List[dict], perturb: List[dict], max_tick: int, places
                 p = copy.deepcopy(pert)
                 if p["op"] not in ("flush", "close", "until_closed"):
                     p["place"] = pl
-                elif pl != "inline":
+                elif pl == "soon":
                     continue
+                else:
+                    p["place"] = "eager" if pl == "inline" else "task"
                 steps.append(p)
                 steps.extend(copy.deepcopy(tail or []))
                 yield {"pools": copy.deepcopy(pools), "steps": steps}
